@@ -58,8 +58,22 @@ TECH = {
 }
 
 
-TIE_TECH = ("; code this property rests on (the two 1-NN kernels and get_test_batch_size / the control skeleton of _shapley_bruteforce / one permutation walk of _shapley_montecarlo / the JointUtility methods / the accuracy and ROC-AUC element-wise tables / Provenance.query / the AValue and ATally arithmetic / ADD.__call__ / the integer-index edits of the provenance container - see evidence.coverage.translator) is additionally "
+TIE_TECH = ("; code this property rests on (the two 1-NN kernels and get_test_batch_size / the control skeleton of _shapley_bruteforce / one permutation walk of _shapley_montecarlo / the JointUtility methods / the accuracy and ROC-AUC element-wise tables / Provenance.query / the AValue and ATally arithmetic / ADD.__call__, restrict, modelcount and ShapleyOracle.query / the integer-index edits of the provenance container / compute_shapley_add, get_unit_labels_and_distances and compute_shapley_1nn_mapfork - see evidence.coverage.translator) is additionally "
             "TRANSLATED from /repo's source to Lean on every run (harness/translate*.py -> lean/Gen*) and proved equal to the model (lean/Tie*), so the theorems are re-checked against the current source text")
+
+
+def setup_cmd(leanio):
+    """regenerate every translated file from /repo, build the model + theorems, then every tie (a tie that no longer builds must not stop the setup: the
+    check of the properties registered for it reports it)"""
+    trs = []
+    for t in leanio.TIES.values():
+        if t["translator"] not in trs:
+            trs.append(t["translator"])
+    cmd = " && ".join("(/venv/bin/python harness/%s.py || true)" % t for t in trs)
+    cmd += " && cd lean && lake build Ds DsProofs dsdriver"
+    for t in leanio.TIES.values():
+        cmd += " && (lake build %s || true)" % " ".join(t["targets"])
+    return cmd
 
 
 def main():
@@ -87,7 +101,7 @@ def main():
             na.append(dict(property_id=pid, reason="check not built yet in this round (planned, see DESIGN.md section 5)"))
     m = dict(
         version=1,
-        setup_cmd="(/venv/bin/python harness/translate.py || true) && (/venv/bin/python harness/translate_skel.py || true) && (/venv/bin/python harness/translate_joint.py || true) && (/venv/bin/python harness/translate_mc.py || true) && (/venv/bin/python harness/translate_util.py || true) && (/venv/bin/python harness/translate_query.py || true) && (/venv/bin/python harness/translate_aval.py || true) && (/venv/bin/python harness/translate_add.py || true) && (/venv/bin/python harness/translate_cont.py || true) && cd lean && lake build Ds DsProofs dsdriver && (lake build Gen Tie gendriver || true) && (lake build GenB TieB genbdriver || true) && (lake build GenJ TieJ || true) && (lake build GenM TieM genmdriver || true) && (lake build GenU TieU || true) && (lake build GenQ TieQ genqdriver || true) && (lake build GenV TieV || true) && (lake build GenA TieA || true) && (lake build TieMO || true) && (lake build GenC TieC || true)",
+        setup_cmd=setup_cmd(leanio),
         hooks=dict(guard="DATASCOPE_VERIF", enable="none needed: the harness replaces module/instance attributes (clock, RandomState, kernel entry point, batch size) from outside",
                    baseline_off_cmd="cd /repo && /venv/bin/python -m pytest -ra -q -p no:cacheprovider --timeout=900 --continue-on-collection-errors",
                    source_commits=[], add_only=True),
